@@ -143,7 +143,7 @@ impl Prop for C04 {
         vec!["queries with s < e only (the statement's domain); entries touching a boundary may or may not be returned".into()]
     }
     fn cases(tier: Tier) -> u64 {
-        tier.pick(12_000, 250_000)
+        tier.pick(12_000, 60_000)
     }
     fn strategy(tier: Tier) -> BoxedStrategy<Case> {
         let file = prop_oneof![
